@@ -74,7 +74,7 @@ def main():
         }],
         "checks": checks,
         "not_applicable": na,
-        "notes": "Exit codes of ./check: 0 pass, 1 VIOLATION (reproduced natively), 2 inconclusive (never a pass). Known findings: /verif/known_findings.json.",
+        "notes": "Exit codes of ./check: 0 pass, 1 VIOLATION (reproduced natively), 2 inconclusive (never a pass). In the thorough tier a t_ harness that exhausts its time/memory cap is printed as NOT-DECIDED and listed under coverage.not_decided in the evidence; it explored nothing and does not change the exit code (DESIGN.md section 14). Known findings: /verif/known_findings.json. Seeded changes and the checks that catch them: DESIGN.md section 15, /verif/seeded/.",
     }
     if not na:
         del m["not_applicable"]
